@@ -4,7 +4,7 @@ use derive_setters::Setters;
 
 use crate::{
     backend::decrypt::{DecryptBackend, DecryptWriteBackend},
-    chunker::rabin::check_rabin_params,
+    chunker::{check_fixed_size_params, rabin::check_rabin_params},
     crypto::CryptoKey,
     error::{ErrorKind, RusticError, RusticResult},
     repofile::{ConfigFile, configfile::Chunker},
@@ -281,12 +281,13 @@ impl ConfigOptions {
         }
 
         // validate chunker parameters
-        if matches!(config.chunker(), Chunker::Rabin) {
-            check_rabin_params(
+        match config.chunker() {
+            Chunker::Rabin => check_rabin_params(
                 config.chunk_size(),
                 config.chunk_min_size(),
                 config.chunk_max_size(),
-            )?;
+            )?,
+            Chunker::FixedSize => check_fixed_size_params(config.chunk_size())?,
         }
 
         if let Some(compression) = self.set_compression {
